@@ -44,10 +44,13 @@ static volatile sig_atomic_t in_call = 0;
 static volatile int fault_sig = 0;
 static void* volatile fault_addr = 0;
 
+static volatile int watch_hits = 0;       /* calls that did not return; after WATCH_BUDGET of them the remaining commands are answered "skipped" */
+#define WATCH_BUDGET 12
 static void on_fault(int sig, siginfo_t* si, void* ctx)
 {
     (void)ctx;
     if (!in_call) { _exit(70); }
+    if (sig == SIGALRM) watch_hits++;
     fault_sig = sig;
     fault_addr = si ? si->si_addr : 0;
     siglongjmp(jb, 1);
@@ -275,6 +278,9 @@ int main(void)
         for (char* p = strtok(line, " \t\r\n"); p && nt < 24; p = strtok(NULL, " \t\r\n")) tok[nt++] = p;
         if (nt == 0) continue;
         if (!strcmp(tok[0], "describe")) { describe(); fflush(stdout); continue; }
+        if (watch_hits >= WATCH_BUDGET && strcmp(tok[0], "flush")) {
+            printf("R skipped 0000000000000000 0 0000000000000000 - 0 len=0 data=- dirty=0 ret=0 res=-\n"); continue;
+        }
         if (!strcmp(tok[0], "flush")) { printf("F\n"); fflush(stdout); continue; }
         if (!strcmp(tok[0], "X") && nt >= 11) {
             size_t alen = unhex(tok[10], buf, sizeof buf);
